@@ -86,6 +86,8 @@ def classify(op, clauses):
         return "D4:setup-profiles-setup-fault"
     if f["has"] and f["at"] == 0 and op["name"] == "install" and set(clauses) <= {"stale-profile"}:
         return "D1:install-autoconnect-undo-stale-peer-profile"
+    if f["has"] and f["at"] == 0 and k == "tail" and op["name"] == "forget" and op.get("_inactive"):
+        return "D5:forget-inactive-undo-reconnects"
     return "unexpected"
 
 
@@ -95,8 +97,11 @@ def check_op(o):
     clauses, detail = [], {}
     if o["status"] == "Error":
         # first sentence: a failed change leaves conns and repository exactly as before ...
-        if not (b["conns"] == a["conns"] and b["repo"] == a["repo"] and b["installed"] == a["installed"]):
+        # (raw_equal: the persisted "conns" value is the same JSON value: every entry with every attribute)
+        if not (b["conns"] == a["conns"] and b["repo"] == a["repo"] and b["installed"] == a["installed"]
+                and o.get("raw_equal", True)):
             clauses.append("not-restored")
+            detail["persisted_conns_json_equal"] = o.get("raw_equal")
             detail["before"] = {"conns_active": active(b["conns"]), "repo": b["repo"],
                                 "present": sorted(c for c, v in b["conns"].items() if v["present"])}
             detail["after"] = {"conns_active": active(a["conns"]), "repo": a["repo"],
@@ -163,7 +168,10 @@ def evaluate_ops(paths):
                                 "restored": True, "repo_after": a["repo"], "active_after": active(a["conns"])})
             if not clauses:
                 continue
-            cls = classify(o["op"], clauses)
+            opx = dict(o["op"])
+            # Forget of a connection that was persisted but not in the repository (undesired) before the change
+            opx["_inactive"] = opx["name"] == "forget" and opx["c"] not in o["before"]["repo"]
+            cls = classify(opx, clauses)
             key = "%s [%s] %s" % (cls, ",".join(clauses), scenario_str(sc))
             stats["by_class"][cls] = stats["by_class"].get(cls, 0) + 1
             if key in seen:
